@@ -61,7 +61,7 @@ Case vf_generate() {
     c.tree.tables.resize(9);
     return c;
   }
-  c.tree = pt::gen_tree(c.kind == 1 ? 10 : 12);
+  c.tree = pt::gen_tree(c.kind == 1 ? 10 : (vf::chance(30) ? 40 : 12));   // also tables with far more than 16 ports (sorting switches algorithm there)
   for (auto &tb : c.tree.tables) for (auto &p : tb.ports) {
     if (!p.subtree()) { size_t s = p.name.find('/'); if (s != std::string::npos && p.name.find('#') == std::string::npos) p.name.erase(s, 1); }
     p.meta = gen_meta();
